@@ -163,6 +163,9 @@ func runProperty(ctx *Ctx, o *Options, t0 time.Time) int {
 		}
 	}
 	solver.SolveAll(sp, all, o.Workers)
+	if cex := ctx.confinement(P); cex != nil {
+		results = append(results, &funcResult{key: "confined", ex: cex})
+	}
 
 	// 2. judge
 	known := loadKnown(o.Verif)
